@@ -20,7 +20,10 @@ StepClauses(st, prev, w, w2, op) ==
     Fail(op.k \notin {"normalize_x", "normalize_y"} /\ ~st.orig_same, "C09.original_changed." \o op.k) \cup
     Fail(op.k = "restore_original" /\ ~(PairNear(st.rx, st.ry, st.ox, st.oy, Tol) /\ PairNear(st.x, st.y, st.ox, st.oy, Tol)), "C09.restore_state") \cup
     Fail(~(SeqOK(st.x, w2.x, 20) /\ SeqOK(st.rx, w2.rx, 20) /\ SeqOK(st.ry, w2.ry, 20) /\ SeqOK(st.ox, w2.ox, 20) /\ SeqOK(st.oy, w2.oy, 20)
-           /\ (w2.yopaque \/ SeqOK(st.y, w2.y, 50))), "impl.state." \o op.k)
+           /\ (w2.yopaque \/ SeqOK(st.y, w2.y, 50))), "impl.state." \o op.k) \cup
+    \* beyond the listed properties: values returned by the read-only operations
+    Fail(op.k \in {"len", "to_2d_array", "slice_index", "slice_value", "to_function"} /\ ~w.yopaque
+         /\ ~SeqOK(st.ret, ReadResult(w, op), IF op.k = "to_function" THEN 500 ELSE 50), "impl.read." \o op.k)
 
 RECURSIVE WH(_, _, _, _)
 WH(e, j, w, prev) ==
